@@ -843,6 +843,12 @@ where
                 let offset_list_ptr = list.offset_list.as_mut_ptr();
                 let new_offset_start = offset_list_ptr.wrapping_add(index);
                 let dst_ptr = new_offset_start.wrapping_add(to_add); // shift down by size of offset counter element
+                #[cfg(star_frame_verif)]
+                crate::verif_hooks::trace_raw(crate::verif_hooks::RawAccess::Move {
+                    dst: dst_ptr as usize,
+                    src: new_offset_start as usize,
+                    len: add_bytes_start as usize - new_offset_start as usize,
+                });
                 unsafe {
                     sol_memmove(
                         dst_ptr.cast(),
@@ -934,6 +940,12 @@ where
             let start_offset_list = offset_list_ptr.wrapping_add(start).cast::<u8>(); // dst ptr
             let end_offset_list = offset_list_ptr.wrapping_add(end).cast::<u8>(); // src ptr
             let shift_amount = offset_of_start_ptr as usize - end_offset_list as usize;
+            #[cfg(star_frame_verif)]
+            crate::verif_hooks::trace_raw(crate::verif_hooks::RawAccess::Move {
+                dst: start_offset_list as usize,
+                src: end_offset_list as usize,
+                len: shift_amount,
+            });
             unsafe {
                 // shift everything until the removed elements up to get rid of removed offsets
                 sol_memmove(
